@@ -202,7 +202,7 @@ class Gen:
 # ---------------------------------------------------------------------------------------
 # TLC validation of recorded traces
 
-def validate(recs, tag, invariants=("Conforms", "C06_ParityValid", "C06_MapSane"), keep=False, timeout=600):
+def validate(recs, tag, invariants=("Conforms", "NoPropertyViolation", "C06_ParityValid", "C06_MapSane"), keep=False, timeout=600):
     """returns dict(accepted, violated, line, diag, states, out, path)"""
     os.makedirs(os.path.join(vlib.OUT, "traces"), exist_ok=True)
     path = os.path.join(vlib.OUT, "traces", tag + ".ndjson")
@@ -215,7 +215,7 @@ def validate(recs, tag, invariants=("Conforms", "C06_ParityValid", "C06_MapSane"
         f.write("POSTCONDITION Accepted\nCHECK_DEADLOCK FALSE\n")
     res = vlib.run_tlc("ArrayTrace", cfg=cfg, workers=1, env={"TRACE": path}, timeout=timeout, tag=tag, xmx="4g")
     out = {"path": path, "lines": n, "states": res.distinct, "generated": res.generated, "violated": res.violated,
-           "error": res.error, "accepted": False, "line": None, "diag": None, "raw": res.out[-6000:]}
+           "error": res.error, "accepted": False, "line": None, "diag": None, "pviol": None, "raw": res.out[-6000:]}
     if res.violated:
         m = re.findall(r"/\\ l = (\d+)", res.out)
         if m:
@@ -223,6 +223,9 @@ def validate(recs, tag, invariants=("Conforms", "C06_ParityValid", "C06_MapSane"
         m = re.search(r"/\\ diag = (.*?)(?=\n/\\ |\n\n|\Z)", res.out[res.out.rfind("State "):], re.S) if "State " in res.out else None
         if m:
             out["diag"] = m.group(1)[:4000]
+        last = res.out[res.out.rfind("State "):] if "State " in res.out else ""
+        m = re.search(r"/\\ pviol = (.*?)(?=\n/\\ |\n\n|\Z)", last, re.S)
+        out["pviol"] = m.group(1)[:4000] if m else None
         out["error"] = None
     elif res.error is None and res.distinct == n:
         out["accepted"] = True
